@@ -3,10 +3,12 @@
 const memory = new WebAssembly.Memory({ initial: 64 });
 let bump = 4096;
 export const dvCalls = [];
+export const dvAllocs = [];
 export const dvState = { returns: {}, onCall: null };
 const base = {
     memory,
     diplomat_alloc(size, align) {
+        dvAllocs.push([size, align]);
         align = Math.max(1, align);
         bump = Math.ceil(bump / align) * align;
         const p = bump;
@@ -17,7 +19,7 @@ const base = {
     diplomat_free(ptr, size, align) { },
     diplomat_init() { },
 };
-export function dvReset() { dvCalls.length = 0; }
+export function dvReset() { dvCalls.length = 0; dvAllocs.length = 0; }
 export default new Proxy(base, {
     get(t, k) {
         if (k in t) return t[k];
